@@ -11,18 +11,27 @@ From Coq Require Import FMapPositive.
 From Sq Require Export Base.Bytes Apply.Model.
 
 (* ------------------------------------------------------------------ results *)
+(** why the real code would panic *)
+Inductive panic :=
+| PDangling (node : N)   (* Dialect::ref: "Grammar refers to ... which was not found", at grammar node [node] *)
+| PDanglingBracket       (* the same for a start/end reference of the dialect's bracket set *)
+| PIndex                 (* index / slice out of range *)
+| PUnwrap                (* unwrap() on None, unreachable!, missing bracket type *)
+| PUnimpl                (* unimplemented!/todo!/panic! in a trait method *)
+| PDump.                 (* the dumped graph mentions a node it does not contain (translator error) *)
+
 Inductive res (A : Type) : Type :=
 | ROk (a : A)
 | RErr            (* SQLParseError *)
-| RPanic          (* panic!/unwrap/index out of range/unimplemented! *)
+| RPanic (p : panic)
 | RFuel.          (* interpreter ran out of fuel: excluded by the theorems' statements *)
 Arguments ROk {A} a.
 Arguments RErr {A}.
-Arguments RPanic {A}.
+Arguments RPanic {A} p.
 Arguments RFuel {A}.
 
 Definition bind {A B} (x : res A) (f : A -> res B) : res B :=
-  match x with ROk a => f a | RErr => RErr | RPanic => RPanic | RFuel => RFuel end.
+  match x with ROk a => f a | RErr => RErr | RPanic p => RPanic p | RFuel => RFuel end.
 Notation "x <- e ;; k" := (bind e (fun x => k)) (at level 61, e at next level, right associativity).
 Notation "' p <- e ;; k" := (bind e (fun p => k)) (at level 61, p pattern, e at next level, right associativity).
 Notation "e ;;; k" := (bind e (fun _ => k)) (at level 61, right associativity).
@@ -88,10 +97,10 @@ Section Engine.
   Variable toks : PositiveMap.t ptok.     (* token i at key i+1 *)
   Variable rx : list (N * N).             (* (regex id, token index) pairs on which the regex parser matches *)
 
-  Definition info (n : N) : res ninfo := match get (g_nodes g) n with Some i => ROk i | None => RPanic end.
+  Definition info (n : N) : res ninfo := match get (g_nodes g) n with Some i => ROk i | None => RPanic PDump end.
   (** [segments[i]] of a slice of length [len] *)
   Definition tok (len i : N) : res ptok :=
-    if i <? len then match get toks i with Some t => ROk t | None => RPanic end else RPanic.
+    if i <? len then match get toks i with Some t => ROk t | None => RPanic PIndex end else RPanic PIndex.
 
   (** [a == b] on matchers *)
   Definition meq (a b : N) : bool :=
@@ -105,9 +114,9 @@ Section Engine.
 
   Definition simple_of (n : N) : res (option (list N * list N * bool)) := i <- info n ;; ROk (n_simple i).
   Definition opt_of (n : N) : res bool :=
-    i <- info n ;; match n_opt i with Some b => ROk b | None => RPanic end.
+    i <- info n ;; match n_opt i with Some b => ROk b | None => RPanic PUnimpl end.
   Definition ckey_of (n : N) : res N :=
-    i <- info n ;; match n_ckey i with Some k => ROk k | None => RPanic end.
+    i <- info n ;; match n_ckey i with Some k => ROk k | None => RPanic PUnimpl end.
 
   Definition empty_at (i : N) : mr := MR i i None [] [].
   Definition from_span (a b : N) : mr := MR a b None [] [].
@@ -158,7 +167,7 @@ Section Engine.
               else ROk true
     end.
   Definition all_noncode (len a b : N) : res bool :=
-    if (a <=? b) && (b <=? len) then all_noncode_aux (S (N.to_nat (b - a))) len a b else RPanic.
+    if (a <=? b) && (b <=? len) then all_noncode_aux (S (N.to_nat (b - a))) len a b else RPanic PIndex.
 
   (* ---------------------------------------------------------------- pruning *)
   Fixpoint first_nonws_aux (n : nat) (len i : N) : option (N * list N) :=
@@ -240,7 +249,7 @@ Section Engine.
         s <- simple_of m ;;
         rest <- nm_candidates ms' t ;;
         match s with
-        | None => RPanic                                   (* simple().unwrap() *)
+        | None => RPanic PUnwrap                           (* simple().unwrap() *)
         | Some (raws, tys, _) =>
             if memN (p_ftr t) raws || intersects (p_types t) tys then ROk (m :: rest) else ROk rest
         end
@@ -248,7 +257,7 @@ Section Engine.
   Fixpoint nm_check_simple (ms : list N) : res unit :=
     match ms with
     | [] => ROk tt
-    | m :: ms' => s <- simple_of m ;; match s with None => RPanic | Some _ => nm_check_simple ms' end
+    | m :: ms' => s <- simple_of m ;; match s with None => RPanic PUnwrap | Some _ => nm_check_simple ms' end
     end.
   Fixpoint first_matching (cands : list N) (i len : N) (terms : list N) : res (option (mr * N)) :=
     match cands with
@@ -287,122 +296,129 @@ Section Engine.
     | b :: l' => if i =? 0 then Some b else nth_bool l' (i - 1)
     end.
 
-  (** [resolve_bracket]; [fl] bounds both the loop and the nesting *)
-  Fixpoint resolve_bracket (fl : nat) (len : N) (opening : mr) (opener : N) (starts ends : list N)
-           (persists : list bool) (terms : list N) (nested : bool) : res mr :=
+  (** [resolve_bracket]: the loop after the opening bracket; [fl] bounds loop iterations and nesting.
+      [type_idx] is the position of the opening matcher among [starts]. *)
+  Fixpoint rb_loop (fl : nat) (len : N) (opening : mr) (type_idx : N) (starts ends : list N)
+           (persists : list bool) (terms : list N) (nested : bool) (matched_idx : N) (children : list mr)
+    : res mr :=
     match fl with
     | O => RFuel
     | S fl' =>
-        match mposition starts opener with
-        | None => RPanic
-        | Some type_idx =>
-            (fix loop (k : nat) (matched_idx : N) (children : list mr) {struct k} : res mr :=
-               match k with
-               | O => RFuel
-               | S k' =>
-                   '(m, mt) <- next_match len matched_idx (starts ++ ends) terms ;;
-                   if negb (has_match m) then RErr
-                   else match mt with
-                        | None => RPanic
-                        | Some mt =>
-                            if mcontains ends mt then
-                              match mposition ends mt with
-                              | None => RPanic
-                              | Some closing_idx =>
-                                  if closing_idx =? type_idx then
-                                    match nth_bool persists type_idx with
-                                    | None => RPanic
-                                    | Some pers =>
-                                        let r := MR (mr_start opening) (mr_end m) None
-                                                    [(mr_end opening, k_indent g); (mr_start m, k_dedent g)]
-                                                    (children ++ [m]) in
-                                        if pers then ROk (wrap r (MKind (k_bracketed g))) else ROk r
-                                    end
-                                  else RErr
-                              end
-                            else
-                              inner <- resolve_bracket fl' len m mt starts ends persists terms false ;;
-                              loop k' (mr_end inner) (if nested then children ++ [inner] else children)
-                        end
-               end) fl' (mr_end opening) [opening]
-        end
+        '(m, mt) <- next_match len matched_idx (starts ++ ends) terms ;;
+        if negb (has_match m) then RErr
+        else match mt with
+             | None => RPanic PUnwrap
+             | Some mt =>
+                 if mcontains ends mt then
+                   match mposition ends mt with
+                   | None => RPanic PUnwrap
+                   | Some closing_idx =>
+                       if closing_idx =? type_idx then
+                         match nth_bool persists type_idx with
+                         | None => RPanic PIndex
+                         | Some pers =>
+                             let r := MR (mr_start opening) (mr_end m) None
+                                         [(mr_end opening, k_indent g); (mr_start m, k_dedent g)]
+                                         (children ++ [m]) in
+                             if pers then ROk (wrap r (MKind (k_bracketed g))) else ROk r
+                         end
+                       else RErr
+                   end
+                 else
+                   match mposition starts mt with
+                   | None => RPanic PUnwrap
+                   | Some ti =>
+                       inner <- rb_loop fl' len m ti starts ends persists terms false (mr_end m) [m] ;;
+                       rb_loop fl' len opening type_idx starts ends persists terms nested (mr_end inner)
+                               (if nested then children ++ [inner] else children)
+                   end
+             end
+    end.
+  Definition resolve_bracket (fl : nat) (len : N) (opening : mr) (opener : N) (starts ends : list N)
+             (persists : list bool) (terms : list N) (nested : bool) : res mr :=
+    match mposition starts opener with
+    | None => RPanic PUnwrap
+    | Some type_idx => rb_loop fl len opening type_idx starts ends persists terms nested (mr_end opening) [opening]
     end.
 
   Fixpoint resolve_refs (l : list (option N)) : res (list N) :=
     match l with
     | [] => ROk []
     | Some x :: l' => r <- resolve_refs l' ;; ROk (x :: r)
-    | None :: _ => RPanic                                   (* dialect.ref(..) panics *)
+    | None :: _ => RPanic PDanglingBracket                  (* dialect.ref(..) panics *)
     end.
 
   (** [next_ex_bracket_match] with the "bracket_pairs" set *)
+  Fixpoint neb_loop (k : nat) (fl : nat) (len idx : N) (ms starts ends : list N) (persists : list bool)
+           (terms : list N) (matched_idx : N) (children : list mr) : res (mr * option N * list mr) :=
+    match k with
+    | O => RFuel
+    | S k' =>
+        '(m, mt) <- next_match len matched_idx (ms ++ starts ++ ends) terms ;;
+        if negb (has_match m) then ROk (m, mt, children)
+        else match mt with
+             | None => RPanic PUnwrap
+             | Some mt =>
+                 if mcontains ms mt then ROk (m, Some mt, children)
+                 else if mcontains ends mt then ROk (empty_at idx, None, [])
+                 else
+                   b <- resolve_bracket fl len m mt starts ends persists terms true ;;
+                   neb_loop k' fl len idx ms starts ends persists terms (mr_end b) (children ++ [b])
+             end
+    end.
   Definition next_ex_bracket_match (fl : nat) (len idx : N) (ms : list N) (terms : list N)
     : res (mr * option N * list mr) :=
     if len <=? idx then ROk (empty_at idx, None, [])
     else
       starts <- resolve_refs (map (fun b => fst (fst b)) (g_brackets g)) ;;
       ends <- resolve_refs (map (fun b => snd (fst b)) (g_brackets g)) ;;
-      let persists := map snd (g_brackets g) in
-      (fix loop (k : nat) (matched_idx : N) (children : list mr) {struct k} : res (mr * option N * list mr) :=
-         match k with
-         | O => RFuel
-         | S k' =>
-             '(m, mt) <- next_match len matched_idx (ms ++ starts ++ ends) terms ;;
-             if negb (has_match m) then ROk (m, mt, children)
-             else match mt with
-                  | None => RPanic
-                  | Some mt =>
-                      if mcontains ms mt then ROk (m, Some mt, children)
-                      else if mcontains ends mt then ROk (empty_at idx, None, [])
-                      else
-                        b <- resolve_bracket fl len m mt starts ends persists terms true ;;
-                        loop k' (mr_end b) (children ++ [b])
-                  end
-         end) fl idx [].
+      neb_loop fl fl len idx ms starts ends (map snd (g_brackets g)) terms idx [].
 
   (** the keyword-terminator guard of [greedy_match] *)
   Fixpoint allowable_scan (n : nat) (len i : N) (dflt : bool) : res bool :=
     match n with
     | O => ROk dflt
     | S n' =>
-        if i =? 0 then RPanic                                (* segments[idx - 1] with idx = 0 *)
+        if i =? 0 then RPanic PIndex                         (* segments[idx - 1] with idx = 0 *)
         else
           t <- tok len (i - 1) ;;
           if p_meta t then allowable_scan n' len (i - 1) dflt
           else ROk ((p_kind t =? k_ws g) || (p_kind t =? k_nl g))
     end.
 
+  Fixpoint greedy_loop (k : nat) (fl : nat) (len idx : N) (ms : list N) (terms : list N)
+           (include_terminator nested : bool) (working : N) (children : list mr) : res mr :=
+    match k with
+    | O => RFuel
+    | S k' =>
+        '(matched, mt, inner) <- next_ex_bracket_match fl len working ms terms ;;
+        let children := if nested then children ++ inner else children in
+        if negb (has_match matched) then ROk (MR idx len None [] children)
+        else match mt with
+             | None => RPanic PUnwrap
+             | Some mt =>
+                 s <- simple_of mt ;;
+                 match s with
+                 | None => RPanic PUnwrap
+                 | Some (_, tys, alpha) =>
+                     let start := mr_start matched in
+                     let stop := mr_end matched in
+                     ok <- (if is_empty tys && alpha then
+                              if start <? working then ROk (working =? start)   (* empty reversed range *)
+                              else allowable_scan (S (N.to_nat (start - working))) len start (working =? start)
+                            else ROk true) ;;
+                     if negb ok then greedy_loop k' fl len idx ms terms include_terminator nested stop children
+                     else if include_terminator then ROk (MR idx stop None [] [])
+                     else
+                       stop2 <- skip_back len start idx ;;
+                       if idx =? stop2 then ROk (MR idx start None [] children)
+                       else ROk (MR idx stop2 None [] children)
+                 end
+             end
+    end.
   Definition greedy_match (fl : nat) (len idx : N) (ms : list N) (terms : list N)
              (include_terminator nested : bool) : res mr :=
-    (fix loop (k : nat) (working : N) (children : list mr) {struct k} : res mr :=
-       match k with
-       | O => RFuel
-       | S k' =>
-           '(matched, mt, inner) <- next_ex_bracket_match fl len working ms terms ;;
-           let children := if nested then children ++ inner else children in
-           if negb (has_match matched) then ROk (MR idx len None [] children)
-           else match mt with
-                | None => RPanic
-                | Some mt =>
-                    s <- simple_of mt ;;
-                    match s with
-                    | None => RPanic
-                    | Some (_, tys, alpha) =>
-                        let start := mr_start matched in
-                        let stop := mr_end matched in
-                        ok <- (if is_empty tys && alpha then
-                                 if start <? working then ROk (working =? start)   (* empty reversed range *)
-                                 else allowable_scan (S (N.to_nat (start - working))) len start (working =? start)
-                               else ROk true) ;;
-                        if negb ok then loop k' stop children
-                        else if include_terminator then ROk (MR idx stop None [] [])
-                        else
-                          stop2 <- skip_back len start idx ;;
-                          if idx =? stop2 then ROk (MR idx start None [] children)
-                          else ROk (MR idx stop2 None [] children)
-                    end
-                end
-       end) fl idx [].
+    greedy_loop fl fl len idx ms terms include_terminator nested idx [].
 
   Fixpoint first_term_matches (ts : list N) (idx len : N) (terms : list N) : res bool :=
     match ts with
@@ -451,7 +467,7 @@ Section Engine.
           else ROk (Ret (MR start_idx matched_idx (Some (MKind (k_unparsable g)))
                             (s_ins st ++ map (fun k => (matched_idx, k)) (s_buf st)) (s_ch st)))
         else
-          (if len <? max_idx then RPanic else ROk tt) ;;;
+          (if len <? max_idx then RPanic PIndex else ROk tt) ;;;
           em <- rec e idx max_idx terms ;;
           if negb (has_match em) then
             o <- opt_of e ;;
@@ -505,28 +521,28 @@ Section Engine.
     end.
 
   (* ---------------------------------------------------------------- Bracketed *)
-  Definition match_bracketed (fl : nat) (found : bool) (bs be : option N) (pers gaps : bool) (d : seq_d)
+  Definition match_bracketed (fl : nat) (self : N) (found : bool) (bs be : option N) (pers gaps : bool) (d : seq_d)
              (len idx : N) (terms : list N) : res mr :=
-    if negb found then RPanic                         (* get_bracket_from_dialect(..).unwrap() *)
+    if negb found then RPanic PUnwrap                 (* get_bracket_from_dialect(..).unwrap() *)
     else match bs, be with
          | Some sb, Some eb =>
              sm <- rec sb idx len terms ;;
              if negb (has_match sm) then ROk (empty_at idx)
              else
                bm <- resolve_bracket fl len sm sb [sb] [eb] [pers] terms false ;;
-               (if mr_end bm =? 0 then RPanic else ROk tt) ;;;
+               (if mr_end bm =? 0 then RPanic PIndex else ROk tt) ;;;
                let i0 := mr_end sm in
                let e0 := mr_end bm - 1 in
                i1 <- (if gaps then skip_fwd len i0 len else ROk i0) ;;
                e1 <- (if gaps then skip_back len e0 i1 else ROk e0) ;;
-               (if len <? e1 then RPanic else ROk tt) ;;;
+               (if len <? e1 then RPanic PIndex else ROk tt) ;;;
                cm <- match_sequence fl d e1 i1 (deeper true [eb] terms) ;;
                if negb (mr_end cm =? e1) && pmode_eqb (sq_mode d) Strict then ROk (empty_at i1)
-               else if negb gaps && (mr_end cm =? mr_end bm - 1) then RPanic       (* unimplemented!() *)
+               else if negb gaps && (mr_end cm =? mr_end bm - 1) then RPanic PUnimpl   (* unimplemented!() *)
                else
                  let ch := if is_some (mr_matched cm) then mr_ch bm ++ [cm] else mr_ch bm ++ mr_ch cm in
                  ROk (MR (mr_start bm) (mr_end bm) (mr_matched bm) (mr_ins bm) ch)
-         | _, _ => RPanic
+         | _, _ => RPanic (PDangling self)
          end.
 
   (* ---------------------------------------------------------------- AnyNumberOf *)
@@ -562,6 +578,33 @@ Section Engine.
   Definition opt_le (a : option N) (n : N) : bool := match a with Some m => m <=? n | None => false end.
   Definition opt_lt (a : option N) (n : N) : bool := match a with Some m => m <? n | None => false end.
 
+  Fixpoint any_loop (k : nat) (d : any_d) (len idx max_idx : N) (terms : list N)
+           (n_matches : N) (counters : list (N * N)) (matched_idx working_idx : N) (matched : mr) : res mr :=
+    match k with
+    | O => RFuel
+    | S k' =>
+        if ((an_min d <=? n_matches) && (max_idx <=? matched_idx)) || opt_le (an_max d) n_matches
+        then parse_mode_result len matched max_idx (an_mode d)
+        else if max_idx <=? matched_idx then ROk (empty_at idx)
+        else
+          '(m, mo) <- longest_match max_idx (an_elems d) working_idx (deeper (an_reset d) (an_terms d) terms) ;;
+          if negb (has_match m) then
+            parse_mode_result len (if n_matches <? an_min d then empty_at idx else matched) max_idx (an_mode d)
+          else match mo with
+               | None => RPanic PUnwrap
+               | Some o =>
+                   ck <- ckey_of o ;;
+                   let '(counters', cnt) := bump ck counters in
+                   if match cnt with Some c => opt_lt (an_max_per d) c | None => false end
+                   then parse_mode_result len matched max_idx (an_mode d)
+                   else
+                     let matched' := append matched m in
+                     let matched_idx' := mr_end matched' in
+                     w <- (if an_gaps d then skip_fwd len matched_idx' len else ROk matched_idx') ;;
+                     any_loop k' d len idx max_idx terms (n_matches + 1) counters' matched_idx' w matched'
+               end
+    end.
+
   Definition match_anynumberof (fl : nat) (d : any_d) (len idx : N) (terms : list N) : res mr :=
     excluded <- match an_exclude d with
                 | Some ex => m <- rec ex idx len terms ;; ROk (has_match m)
@@ -574,68 +617,50 @@ Section Engine.
                   then trim_to_terminator fl len idx
                          (if an_reset d then an_terms d else an_terms d ++ terms) terms
                   else ROk len) ;;
-      (if len <? max_idx then RPanic else ROk tt) ;;;
-      (fix loop (k : nat) (n_matches : N) (counters : list (N * N)) (matched_idx working_idx : N) (matched : mr)
-           {struct k} : res mr :=
-         match k with
-         | O => RFuel
-         | S k' =>
-             if ((an_min d <=? n_matches) && (max_idx <=? matched_idx)) || opt_le (an_max d) n_matches
-             then parse_mode_result len matched max_idx (an_mode d)
-             else if max_idx <=? matched_idx then ROk (empty_at idx)
-             else
-               '(m, mo) <- longest_match max_idx (an_elems d) working_idx (deeper (an_reset d) (an_terms d) terms) ;;
-               if negb (has_match m) then
-                 parse_mode_result len (if n_matches <? an_min d then empty_at idx else matched) max_idx (an_mode d)
-               else match mo with
-                    | None => RPanic
-                    | Some o =>
-                        ck <- ckey_of o ;;
-                        let '(counters', cnt) := bump ck counters in
-                        if match cnt with Some c => opt_lt (an_max_per d) c | None => false end
-                        then parse_mode_result len matched max_idx (an_mode d)
-                        else
-                          let matched' := append matched m in
-                          let matched_idx' := mr_end matched' in
-                          w <- (if an_gaps d then skip_fwd len matched_idx' len else ROk matched_idx') ;;
-                          loop k' (n_matches + 1) counters' matched_idx' w matched'
-                    end
-         end) fl 0 counters idx idx (empty_at idx).
+      (if len <? max_idx then RPanic PIndex else ROk tt) ;;;
+      any_loop fl d len idx max_idx terms 0 counters idx idx (empty_at idx).
 
   (* ---------------------------------------------------------------- Delimited *)
+  Definition delim_finish (allow_trailing : bool) (min_delims idx : N) (seeking : bool) (dm : option mr)
+             (delims : N) (wm : mr) : res mr :=
+    let '(delims, wm) := match dm with
+                         | Some x => if allow_trailing && negb seeking then (delims + 1, append wm x) else (delims, wm)
+                         | None => (delims, wm)
+                         end in
+    if delims <? min_delims then ROk (empty_at idx) else ROk wm.
+
+  Fixpoint delim_loop (k : nat) (d : any_d) (delim : N) (allow_trailing : bool) (min_delims : N)
+           (len idx : N) (terms term_ms : list N)
+           (delims : N) (seeking : bool) (working : N) (wm : mr) (dm : option mr) : res mr :=
+    match k with
+    | O => RFuel
+    | S k' =>
+        working <- (if an_gaps d && (idx <? working) then skip_fwd len working len else ROk working) ;;
+        if len <=? working then delim_finish allow_trailing min_delims idx seeking dm delims wm
+        else
+          '(tm, _) <- longest_match len term_ms working terms ;;
+          if has_match tm then delim_finish allow_trailing min_delims idx seeking dm delims wm
+          else
+            '(m, _) <- longest_match len (if seeking then [delim] else an_elems d) working
+                                     (deeper false (if seeking then [] else [delim]) terms) ;;
+            if negb (has_match m) then delim_finish allow_trailing min_delims idx seeking dm delims wm
+            else
+              if seeking then
+                delim_loop k' d delim allow_trailing min_delims len idx terms term_ms delims false (mr_end m) wm (Some m)
+              else
+                let '(delims', wm') := match dm with
+                                       | Some x => (delims + 1, append wm x)
+                                       | None => (delims, wm)
+                                       end in
+                delim_loop k' d delim allow_trailing min_delims len idx terms term_ms delims' true (mr_end m)
+                           (append wm' m) dm
+    end.
+
   Definition match_delimited (fl : nat) (d : any_d) (delim : N) (allow_trailing : bool) (min_delims : N)
              (len idx : N) (terms : list N) : res mr :=
     let term_ms := an_terms d ++ filter (fun t => negb (meq delim t)) terms
                    ++ (if an_gaps d then [] else [g_noncode g]) in
-    (fix loop (k : nat) (delims : N) (seeking : bool) (working : N) (wm : mr) (dm : option mr)
-         {struct k} : res mr :=
-       let finish (delims : N) (wm : mr) : res mr :=
-         let '(delims, wm) := match dm with
-                              | Some x => if allow_trailing && negb seeking then (delims + 1, append wm x) else (delims, wm)
-                              | None => (delims, wm)
-                              end in
-         if delims <? min_delims then ROk (empty_at idx) else ROk wm in
-       match k with
-       | O => RFuel
-       | S k' =>
-           working <- (if an_gaps d && (idx <? working) then skip_fwd len working len else ROk working) ;;
-           if len <=? working then finish delims wm
-           else
-             '(tm, _) <- longest_match len term_ms working terms ;;
-             if has_match tm then finish delims wm
-             else
-               '(m, _) <- longest_match len (if seeking then [delim] else an_elems d) working
-                                        (deeper false (if seeking then [] else [delim]) terms) ;;
-               if negb (has_match m) then finish delims wm
-               else
-                 if seeking then loop k' delims false (mr_end m) wm (Some m)
-                 else
-                   let '(delims', wm') := match dm with
-                                          | Some x => (delims + 1, append wm x)
-                                          | None => (delims, wm)
-                                          end in
-                   loop k' delims' true (mr_end m) (append wm' m) dm
-       end) fl 0 false idx (empty_at idx) None.
+    delim_loop fl d delim allow_trailing min_delims len idx terms term_ms 0 false idx (empty_at idx) None.
 
   (* ---------------------------------------------------------------- leaves *)
   Definition one_token (idx : N) (kind : N) : mr := MR idx (idx + 1) (Some (MNewtype kind)) [] [].
@@ -653,7 +678,7 @@ Section Engine.
     match n_node i with
     | GRef target exclude rterms reset =>
         match target with
-        | None => RPanic                                           (* Dialect::ref panics *)
+        | None => RPanic (PDangling n)                             (* Dialect::ref panics *)
         | Some t =>
             let terms' := deeper reset rterms terms in
             ex <- match exclude with
@@ -661,7 +686,7 @@ Section Engine.
                       match rec e idx len terms' with
                       | ROk m => ROk (has_match m)
                       | RErr => ROk false                          (* is_ok_and *)
-                      | RPanic => RPanic
+                      | RPanic p => RPanic p
                       | RFuel => RFuel
                       end
                   | None => ROk false
@@ -669,7 +694,7 @@ Section Engine.
             if ex then ROk (empty_at idx) else rec t idx len terms'
         end
     | GSeq d => match_sequence fl d len idx terms
-    | GBracketed found bs be pers gaps d => match_bracketed fl found bs be pers gaps d len idx terms
+    | GBracketed found bs be pers gaps d => match_bracketed fl n found bs be pers gaps d len idx terms
     | GAny d => match_anynumberof fl d len idx terms
     | GDelim d delim tr mn => match_delimited fl d delim tr mn len idx terms
     | GNodeM kind gr =>
@@ -690,7 +715,7 @@ Section Engine.
     | GRegex rid kind =>
         _t <- tok len idx ;;
         if existsb (fun p => (fst p =? rid) && (snd p =? idx)) rx then ROk (one_token idx kind) else ROk (empty_at idx)
-    | GMeta _ => RPanic
+    | GMeta _ => RPanic PUnimpl
     | GCond k en => if en then ROk (MR idx idx None [(idx, k)] []) else ROk (empty_at idx)
     | GAnything aterms =>
         if is_empty aterms && is_empty terms then ROk (from_span idx len)
@@ -720,7 +745,7 @@ Fixpoint match_node (g : grammar) (toks : PositiveMap.t ptok) (rx : list (N * N)
 Definition parse_root (g : grammar) (toks : PositiveMap.t ptok) (rx : list (N * N)) (fuel : nat)
            (start_idx end_idx : N) : res mr :=
   match g_root g with
-  | None => RPanic
+  | None => RPanic PDanglingBracket     (* FileSegment missing from the library *)
   | Some r => match_node g toks rx fuel r start_idx end_idx []
   end.
 
